@@ -25,7 +25,6 @@ contract(M + 'match_scope', params=dict(self=CSSMATCH, el=NODE), returns=BOOL, e
 # sub-matchers not (yet) verified against a defined spec: their contracts are modular placeholders whose meaning is
 # an abstract spec function; the evidence lists them as "proved modulo" edges
 for fn, params, spec in [
-    ('match_default', dict(self=CSSMATCH, el=NODE), 'sem_default(self, el)'),
     ('match_indeterminate', dict(self=CSSMATCH, el=NODE), 'sem_indeterminate(self, el)'),
     ('match_dir', dict(self=CSSMATCH, el=NODE, directionality=FLAGS), 'sem_dir(self, el, directionality)'),
 ]:
@@ -252,3 +251,26 @@ contract(M + 'match_defined', params=dict(self=CSSMATCH, el=NODE), returns=BOOL,
          ensures=['result == sem_defined(self, el)'], properties=['C01'])
 contract(M + 'match_placeholder_shown', params=dict(self=CSSMATCH, el=NODE), returns=BOOL, requires=['el is not None'],
          ensures=['result == sem_placeholder(self, el)'], properties=['C17'])
+
+contract(M + 'match_default', params=dict(self=CSSMATCH, el=NODE), returns=BOOL, requires=['el is not None'],
+         ensures=['result == sem_default(self, el)'],
+         locals=dict(form=NODE, parent=NODE, name=OPT_STR),
+         loops={1: dict(invariant=['(form_from(self, parent) if form is None else form) == form_of(self, el)', 'form is None or is_form_el(self, form)',
+                                   'parent is None or is_tag(parent)'],
+                        decreases='0 if parent is None else (depth(parent) + 2 if form is None else 1)'),
+                2: dict(invariant=['not found_form', 'not match', 'form == form_of(self, el)', 'form is not None',
+                                   '_seq2 == self.cached_default_forms', 'default_cache_ok(self, _seq2, _i2)']),
+                3: dict(var='child', assume_elem=['child is not None and is_tag(child)', "is_str_val(attr_by_name(child, 'type', ''))"],
+                        invariant=['not match', 'form == form_of(self, el)', 'form is not None', '_seq3 == desc_spec(self, form, True, True)',
+                                   'first_submit(self, _seq3, _i3) == first_submit(self, _seq3, 0)',
+                                   'self.cached_default_forms == old(self.cached_default_forms)'])},
+         uses=[dict(fact='implies(default_cache_ok(self, old(self.cached_default_forms), 0) and form is not None and '
+                         'len(self.cached_default_forms) == len(old(self.cached_default_forms)) + 1 and '
+                         'self.cached_default_forms == old(self.cached_default_forms) + [self.cached_default_forms[len(old(self.cached_default_forms))]] and '
+                         'self.cached_default_forms[len(old(self.cached_default_forms))][0] is not None and self.cached_default_forms[len(old(self.cached_default_forms))][1] is not None and '
+                         'same(default_of(self, self.cached_default_forms[len(old(self.cached_default_forms))][0]), self.cached_default_forms[len(old(self.cached_default_forms))][1]), '
+                         'default_cache_ok(self, self.cached_default_forms, 0))',
+                    by=['lemma.C04_cache_snoc_base', 'lemma.C04_cache_snoc_step'])],
+         properties=['C17', 'C04'])
+contract('soupsieve.css_match._DocumentNav.get_tag_descendants', params=dict(self=CSSMATCH, el=NODE, no_iframe=BOOL), returns=SEQ_NODE,
+         kind='generator', ensures=['result == tag_desc(self, el, no_iframe)'], properties=['C01', 'C03'])
